@@ -5,6 +5,7 @@ import CatiiProofs.Counting
 import CatiiProofs.PickCommon
 import CatiiProofs.EqGenBridge
 import CatiiProofs.CommonGenBridge
+import CatiiProofs.ShiftGenBridge
 /-!
 # C15 — library-chosen common value; equality is canonical
 
@@ -64,6 +65,30 @@ theorem generated_eq_iff_same_content (a b : IIndex) (ha : WF a) (hb : WF b) :
     EqGen.indexEq a b = true ↔ a.shape = b.shape ∧ a.common = b.common ∧
       ∀ r < a.nrows, ∀ hi ∈ hiCells (a.shape.drop 1), denseAt a r hi = denseAt b r hi := by
   rw [gen_eq_is_eqIdx]; exact eq_iff_same_content a b ha hb
+
+/-- the two regenerated pieces together: what the CURRENT `shift_common(v)` (`Gen.shiftToGen`, tools/translate_shift.py) makes
+of a well-formed one- or two-axis index compares EQUAL, under the CURRENT `__eq__` (`EqGen.indexEq`), to every well-formed
+index with the same shape, common value `v` and dense content - e.g. the one built directly from the array: the
+re-encoding leaves no trace in the representation (no empty entry, no left-over key) -/
+theorem generated_reencoding_is_canonical (i t : IIndex) (hi : WF i) (ht : WF t) (h2 : i.ndim ≤ 2) (v : Int)
+    (hshape : t.shape = i.shape) (hcommon : t.common = v)
+    (hdense : ∀ r < i.nrows, ∀ hi ∈ hiCells (i.shape.drop 1), denseAt t r hi = denseAt i r hi) :
+    EqGen.indexEq (Gen.shiftToGen i v) t = true := by
+  have hb := gen_shiftTo_eq i v hi.arity h2
+  obtain ⟨hw, hs, hd⟩ := shiftCommon_refines i hi h2 (some v) _ hb
+  have hc : (Gen.shiftToGen i v).common = v := by
+    unfold Gen.shiftToGen
+    by_cases hv : v = i.common
+    · simp [hv]
+    · have : (v != i.common) = true := by simpa using hv
+      simp only [this, if_true]
+  rw [generated_eq_iff_same_content _ _ hw ht]
+  refine ⟨hs.trans hshape.symm, hc.trans hcommon.symm, ?_⟩
+  intro r hr hi' hhi
+  have hn : (Gen.shiftToGen i v).nrows = i.nrows := by simp [IIndex.nrows, hs]
+  rw [hn] at hr
+  rw [hs] at hhi
+  rw [hd r hr hi' hhi, hdense r hr hi' hhi]
 
 /-- `!=` is the negation of `==` for every pair of indexes (well-formed or not): it returns a boolean, it never raises -/
 theorem generated_ne_is_negation (a b : IIndex) : EqGen.indexNe a b = !(EqGen.indexEq a b) := rfl
